@@ -53,6 +53,10 @@ def run(R):
                 R.samples.append(dict(kind="random-doc", text=e.get("text", "")[:400]))
     R.validate("Trace_J2T", tr2, reset_events=("Desc",), timeout=3000)
     R.validate("Trace_J2TResume", tr2, reset_events=("Desc",), timeout=3000)
+    # root descriptors that are not structs ("every type descriptor"): string, binary, bool, i8..i64, double, list, map, set
+    tr3 = os.path.join(R.scratch, "c02-c.ndjson")
+    R.drive("c02", "out=" + tr3, "rootscalar=%d" % (10 if q else 150), "bare=0", "seed=%d" % R.seed, "prop=c02", timeout=3000)
+    R.validate("Trace_J2T", tr3, reset_events=("Desc",), timeout=3000, sticky="Desc")
     R.extra_cov["tlc_docs_replayed"] = len(cases)
     return vlib.finish(R, "model_checking", RULE, ASSUME)
 
